@@ -20,6 +20,12 @@ for pid in pids:
     r = subprocess.run(['/verif/check', pid], capture_output=True, text=True, env=env, timeout=3600)
     lines = [l for l in r.stdout.splitlines() if l.strip()]
     res[pid] = {'rc': r.returncode, 'first': [l[:300] for l in lines[:3]] if r.returncode else []}
+if checks and os.path.exists(rd + '/result.json'):
+    # a subset was re-run: keep the recorded verdicts of the others
+    old_ = json.load(open(rd + '/result.json'))
+    merged = dict(old_.get('checks', {}))
+    merged.update(res)
+    res = merged
 json.dump({'suite_ok_debug_build': suite_ok, 'checks': res}, open(rd + '/result.json', 'w'), indent=1)
 shutil.rmtree(scratch, ignore_errors=True)
 print(name, 'suite_ok', suite_ok, 'alarms', {p: v['first'][:1] for p, v in res.items() if v['rc'] == 1}, 'no-verdict', sorted(p for p, v in res.items() if v['rc'] not in (0, 1)))
